@@ -1489,6 +1489,12 @@ func (m *Machine) moveBytes(fr *frame, dst *ByteObj, doff *Term, src *ByteObj, s
 		}
 		return
 	}
+	// symbolic length into a fresh object from offset 0 of the source: share the source's array
+	// (bytes beyond n are not addressable through the destination: callers give it capacity n)
+	if dst != src && dst.base == nil && len(dst.ov) == 0 && !dst.ro && doff.IsConst() && doff.val == 0 && soff.IsConst() && soff.val == 0 {
+		dst.base = src.fold(m)
+		return
+	}
 	// symbolic length: find an upper bound by asking the solver for feasibility of n > B
 	bound := m.copyBound
 	if !m.branchNoFork(tc.Cmp(OpULe, n, Const(64, uint64(bound)))) {
@@ -1525,6 +1531,9 @@ func (m *Machine) appendBytes(fr *frame, s, src ByteSlice) ByteSlice {
 	}
 	// grow: fresh object; capacity is 2*len+n (not observable except through cap())
 	ncap := tc.Bin(OpAdd, tc.Bin(OpAdd, newLen, sl), Const(64, 8))
+	if !n.IsConst() && s.obj == nil && src.off.IsConst() && src.off.val == 0 {
+		ncap = newLen // the source array is shared (moveBytes): nothing beyond the length may be addressable
+	}
 	o := m.newByteObj(ncap)
 	if s.obj != nil {
 		m.moveBytes(fr, o, Const(64, 0), s.obj, s.off, sl)
